@@ -325,6 +325,7 @@ func RunRestartHistory(o HistOpts) *HistResult {
 						r.Do(cs)
 						r.Do(&Step{Op: "start", Pod: nk, Ctr: cs.Ctr})
 					}
+					old.State = StStopped // terminating: it gets no new containers, its old ones are still reported as live
 					r.Count("c11_same_name_pod_recreated")
 				}
 			}
